@@ -310,12 +310,17 @@ func (r *Run) racePass() {
 		b, _ := os.ReadFile(path)
 		txt := string(b)
 		// the go-kardia functions of the two conflicting accesses (first frames below "Write at"/"Read at"/"Previous ...")
+		// The detector stops at the first conflicting pair, which is write/write or read/write depending on its shadow
+		// slots, not on the schedule: the signature names the WRITING functions only (reads only if no write frame is
+		// in go-kardia code), which is the same for both kinds of pair.
 		seen := map[string]bool{}
-		var fns []string
+		var fns, rfns []string
 		lines := strings.Split(txt, "\n")
 		for i, l := range lines {
 			t := strings.TrimSpace(l)
-			if strings.HasPrefix(t, "Write at") || strings.HasPrefix(t, "Read at") || strings.HasPrefix(t, "Previous write at") || strings.HasPrefix(t, "Previous read at") {
+			isW := strings.HasPrefix(t, "Write at") || strings.HasPrefix(t, "Previous write at")
+			isR := strings.HasPrefix(t, "Read at") || strings.HasPrefix(t, "Previous read at")
+			if isW || isR {
 				for _, m := range lines[i+1:] {
 					m = strings.TrimSpace(m)
 					if m == "" {
@@ -328,12 +333,19 @@ func (r *Run) racePass() {
 						}
 						if !seen[fn] {
 							seen[fn] = true
-							fns = append(fns, fn)
+							if isW {
+								fns = append(fns, fn)
+							} else {
+								rfns = append(rfns, fn)
+							}
 						}
 						break
 					}
 				}
 			}
+		}
+		if len(fns) == 0 {
+			fns = rfns
 		}
 		sort.Strings(fns)
 		if len(txt) > 4000 {
